@@ -18,7 +18,6 @@ package cdi
 
 import (
 	"errors"
-	"io/fs"
 	"os"
 	"path/filepath"
 )
@@ -77,10 +76,8 @@ func scanSpecDirs(dirs []string, scanFn scanSpecFunc) error {
 		err = filepath.Walk(dir, func(path string, info os.FileInfo, err error) error {
 			// for initial stat failure Walk calls us with nil info
 			if info == nil {
-				if errors.Is(err, fs.ErrNotExist) {
-					return nil
-				}
-				return err
+				// a directory that cannot be scanned must not prevent scanning the others
+				return nil
 			}
 			// first call from Walk is for dir itself, others we skip
 			if info.IsDir() {
